@@ -281,7 +281,7 @@ def run_case(case, ctx):
         rng = gen.rng_for(case["seed"])
         kw = draw_params(rng)
         pairs = gen_pairs(rng, int(rng.integers(120, 320)))
-    det = LinearFourRates(**gen.maybe_numpy(kw, case, ctx))
+    det = gen.construct(LinearFourRates, kw, case, ctx)
     model = LFRModel(kw)
     resets = set(case.get("literal", {}).get("resets", []))
     if "literal" not in case and len(pairs) % 10 < 4:
